@@ -15,8 +15,8 @@ How a pandas operand pair is read as tables (done by the harness, `harness/c13.p
   fresh name `anon side position` (it can never be shared);
 * a scalar is the table with no level and one row; an array is positional (see `prmTbl`).
 
-Semantics (the code as it is after the repairs `tools/fixes/C13-align-equal-values.diff` (finding F-6) and
-`tools/fixes/C13-outer-join-nan-levels.diff` (finding contained-multi-shared-missing-key)):
+Semantics (the code as it is after the repairs, repo commits b3ce47d (finding F-6, align-equal-values) and
+83030b7 (finding contained-multi-shared-missing-key); further Broadcaster repairs: c67dac2, 20f8491, 190635a, bc2cb7f):
 * no shared level name: cross join (nothing else: an empty operand gives an empty result);
 * shared names: rows are paired when they agree on all shared levels.  A row without partner is kept: the other
   payload is NaN and the key is NaN (`none`) at the levels the row's operand does not have (outer join) -
